@@ -306,6 +306,21 @@ def gen_raw(rng, tier):
             flat = flat + [13]
         cases.append({"kind": "raw", "tags": sorted(tags), "script": None,
                       "chunks": chunk_bytes(rng, flat, rng.choice(["one", "random", "random", "bytes"]))})
+    # literals with backslash escapes (outside the theorem's hypotheses: model vs Go): an escaped quote does not
+    # close the literal, an escaped backslash does not escape the quote after it, a semicolon inside stays inside
+    ESC_LITS = ["'C:\\\\'", "'it\\'s'", "'a\\\\\\'b;c'", "'\\\\'", "\"q\\\\\"", "\"say \\\"hi\\\";\"", "'x\\\\\\\\'", "'\\;'", "'a\\\\;b\\\\'"]
+    for i in range(24 if tier == "quick" else 200):
+        parts = []
+        for _ in range(rng.randrange(1, 4)):
+            lit = rng.choice(ESC_LITS)
+            parts.append(rng.choice(["insert into t values (1, %s);", "select %s from t;", "update t set a = %s where b = 'a;b';"]) % lit)
+            parts.append(rng.choice(["", " ", "\r", "\r"]))
+        parts.append("select 'a;b';\r")
+        flat = [b for ch in "".join(parts) for b in utf8(ord(ch))]
+        if i % 4 == 3:
+            flat = PS + flat + PE + [13]
+        cases.append({"kind": "raw", "tags": ["escaped-literal"], "script": None,
+                      "chunks": chunk_bytes(rng, flat, rng.choice(["one", "random"]))})
     # lines around maxLineLength
     nl = 6 if tier == "quick" else 40
     for i in range(nl):
